@@ -3,8 +3,17 @@
 import json, glob, os
 V = os.path.dirname(os.path.dirname(os.path.abspath(__file__)))
 rows = []
+# verdicts of the final harness (tools/seed_recheck.py) take precedence over those recorded at first evaluation
+FINAL = {}
+if os.path.exists(V + "/seeded/final_recheck.json"):
+    FINAL = json.load(open(V + "/seeded/final_recheck.json"))
 for f in sorted(glob.glob(V + "/seeded/*/meta.json")):
     m = json.load(open(f))
+    for p_, r_ in FINAL.get(m["name"], {}).items():
+        if isinstance(r_, dict) and "detected" in r_:
+            old = m.setdefault("check_verdicts", {}).get(p_, {})
+            m["check_verdicts"][p_] = {"detected": r_["detected"], "exit": 1 if r_["detected"] else 0,
+                                       "signatures": r_.get("signatures") or (old.get("signatures", []) if r_["detected"] else [])}
     needs = " ".join(m.get("needs_to_manifest", "").split())
     if len(needs) > 330:
         needs = needs[:327] + "..."
